@@ -102,6 +102,33 @@ def run(ctx, rep):
         want = {(("InvalidData",), "break"), (("UnexpectedEof",), "break")}
         rep.check(want <= set(arms) and ((), "return") in arms, "R18.2", "R18.2|builder|eof_breaks", "get_array_batch: InvalidData / UnexpectedEof keep the partial batch, other errors are returned", gb,
                   "error arms of the batch builder are %s" % arms)
+        # R18.3 every error kind the input layer itself constructs for an end-of-input condition is one the builder keeps
+        kept = {k[0] for k, act in arms if act == "break" and len(k) == 1}
+        made = {}
+        for p_ in sorted(reach):
+            if AP not in p_ or p_.startswith(AP + "init_reader") or p_ == gb or "get_vec_batch" in p_:
+                continue
+            tbx = ev.tb(p_)
+            if not tbx:
+                continue
+            for i, nd in tbx.walk():
+                if nd["k"] == "Call" and (nd.get("fn") or "").endswith("io::error::Error::new"):
+                    ks = [x.get("vname") for a in nd["args"][:1] for _, x in tbx.walk(a) if x["k"] == "Adt" and x.get("adt", "").endswith("ErrorKind")]
+                    for k_ in ks or ["<computed kind>"]:
+                        made.setdefault(k_, set()).add(p_.split("::")[-1])
+                elif nd["k"] == "Call" and (nd.get("fn") or "").endswith("io::error::Error::other"):
+                    made.setdefault("Other", set()).add(p_.split("::")[-1])
+                elif nd["k"] == "Call" and "io::error::Error" in (nd.get("fn") or "") and (nd.get("fn") or "").endswith("::from") and \
+                        any(x["k"] == "Adt" and x.get("adt", "").endswith("ErrorKind") for a in nd["args"] for _, x in tbx.walk(a)):
+                    for a in nd["args"]:
+                        for _, x in tbx.walk(a):
+                            if x["k"] == "Adt" and x.get("adt", "").endswith("ErrorKind"):
+                                made.setdefault(x.get("vname"), set()).add(p_.split("::")[-1])
+        for k_, where_ in sorted(made.items()):
+            rep.check(k_ in kept, "R18.3", "R18.3|eof_kinds_kept|%s" % k_, "io::ErrorKind::%s (constructed in %s) keeps the partial batch" % (k_, sorted(where_)), gb,
+                      "the input layer constructs io::ErrorKind::%s in %s for an end-of-input condition, but the batch builder answers it with `return Err(e)`: "
+                      "every packet of the current batch read before the cut is discarded" % (k_, sorted(where_)))
+        rep.floor("R18.3", len(made), 2, "error kinds constructed by the input layer")
         b = cg.body(gb)
         emp = [bb for bb, t, cal, c in b.calls() if cal and cal.endswith("CdpArray::<T, CAP>::is_empty")]
         rep.check(len(emp) == 1 and not b.on_cycle(emp[0]), "R18.2", "R18.2|builder|empty_only_error", "only an empty batch is turned into Err after the loop", gb)
@@ -157,6 +184,11 @@ def run(ctx, rep):
                   "seek-error handling in load_cdp: %s" % conds)
     else:
         rep.missing("R18.2", lc)
+    # ---------- R18.4 the truncation messages keep the canonical shape (the statistics thread parses `^0x[0-9A-F]+`)
+    from . import c07
+    bad = c07.message_shape_violations(ctx, "dev", only_codes=("[E100]", "[E101]"))
+    rep.check(not bad, "R18.4", "R18.4|truncation_message_shape", "[E100]/[E101] start with an upper-hex offset like every other error (sortable by the statistics thread)", "input_scanner.rs",
+              "truncation message(s) %s do not start with `{pos:#X}: `: ErrorStats::sort_error_msgs_by_mem_pos panics on them and the findings for the intact prefix are lost" % bad)
     # analysis: every received batch is processed (recv loop) — shared with C17 R17.2
 
 
